@@ -128,6 +128,14 @@ CLAIMS = {
          "isomorphic graph with a total assignment whose weight product equals the product over rule instances. Sampled.",
          "Trusted: vf/oracle_fgg.py expand (independent replacement), vf/iso.py, Hypothesis. Right-hand sides have distinct external nodes.",
          "DESIGN.md section 5, C15"),
+ 'C20': ("Hypothesis-generated domains, weight arguments of right and wrong shapes and legal/illegal bindings: round-trip, acceptance/rejection and before/after-table oracles",
+         "FiniteDomain/RangeDomain of size 0-6 over mixed hashable values: numberize/denumberize inverse, contains on members and non-members, equality by "
+         "content. FiniteFactor with nested-list, Tensor and typed PatternedTensor weights: accepted exactly when the shape is the tuple of domain sizes (one "
+         "size off, permuted, extra/missing dimension, ragged list must raise), apply() equals the dense entry, equality by domains and dense weights "
+         "(re-patterned copies equal, perturbed or other-domain copies unequal). add_factor/new_finite_factor/add_domain/shape on FGG and FactorGraph in legal "
+         "and nine illegal scenarios: accepted iff legal, otherwise ValueError/KeyError with the binding tables unchanged. Sampled.",
+         "Trusted: vf/gen_pattern.py, Python equality of the generated values, Hypothesis.",
+         "DESIGN.md section 5, C20"),
 }
 
 NOT_YET = {}   # id -> reason (filled while the framework is being built)
